@@ -304,4 +304,23 @@ MUTANTS += [
     dict(prop='C08', name='sink-interarrival-uses-first-arrival', edits=[(SINK, "self.arrivals[rec_index][-1] = now - self.last_arrival[rec_index]", "self.arrivals[rec_index][-1] = now - (self.last_arrival[rec_index] if len(self.arrivals[rec_index]) < 4 else self.first_arrival[rec_index])")]),
     dict(prop='C08', name='drr-parks-head-and-forgets-it', edits=[(DRRF, "                            assert not class_id in self.head_of_line\n                            self.head_of_line[class_id] = packet", "                            assert not class_id in self.head_of_line\n                            if packet.size < 1000:\n                                self.head_of_line[class_id] = packet")]),
 ]
+
+HUB = 'onl/netdev/hub.py'
+FT = 'onl/topo/fattree.py'
+SWITCH = 'onl/netdev/switch.py'
+MUTANTS += [
+    # ---- C18
+    dict(prop='C18', name='fibdemux-default-before-table-for-flow0', edits=[(DEMUX, "        if flow_id in self.ends:", "        if flow_id == 0 and self.default_out:\n            self.default_out.put(packet)\n        elif flow_id in self.ends:")]),
+    dict(prop='C18', name='fibdemux-table-before-ends', edits=[(DEMUX, "        if flow_id in self.ends:\n            self.ends[flow_id].put(packet)", "        if flow_id in self.ends and flow_id not in self._fib:\n            self.ends[flow_id].put(packet)")]),
+    dict(prop='C18', name='fibdemux-empty-table-rejected-again', edits=[(DEMUX, "        if self._fib is None:", "        if not self._fib:")]),
+    dict(prop='C18', name='hub-includes-sender', edits=[(HUB, "            if endpoint.element_id == packet.src:\n                continue", "            if endpoint.element_id == packet.src and idx == 0:\n                continue")]),
+    dict(prop='C18', name='hub-bypasses-port-device', edits=[(HUB, "            out = self.outs[idx]\n", "            out = self.outs[idx] if idx % 2 == 0 else self.endpoints[idx]\n")]),
+    dict(prop='C18', name='splitter-forwards-same-object-twice', edits=[(SPLIT, "            self.out2.put(copy(packet))", "            self.out2.put(packet)")]),
+    dict(prop='C18', name='nsplitter-shares-one-copy', edits=[(SPLIT, "        for out in self.outs[1:]:\n            if out:\n                out.put(copy(packet))", "        dup = copy(packet)\n        for out in self.outs[1:]:\n            if out:\n                out.put(dup)")]),
+    dict(prop='C18', name='fattree-core-agg-index-off', edits=[(FT, "aggr_node = n_core + (core_node // (k // 2)) + (k * pod)", "aggr_node = n_core + (core_node // (k // 2)) + (k * (pod if pod < 3 else pod - 1))")]),
+    dict(prop='C18', name='fattree-reverse-entry-at-wrong-node', edits=[(FT, "                    self.topo.nodes[z][\"flow_to_nexthop\"][flow.fid + 10000] = a", "                    self.topo.nodes[z][\"flow_to_nexthop\"][flow.fid + 10000] = a\n                    if len(flow.path) > 5:\n                        self.topo.nodes[z][\"flow_to_port\"][flow.fid + 10000] = 0")]),
+    dict(prop='C18', name='fattree-flow-may-loop-to-itself', edits=[(FT, "            src, dst = sample(sorted(self.hosts), 2)", "            src, dst = sample(sorted(self.hosts), 2)\n            if flow_id == 7:\n                dst = src")]),
+    dict(prop='C18', name='fattree-any-simple-path', edits=[(FT, "sample(list(nx.all_shortest_paths(self.topo, src, dst)), 1)[0]", "sample(list(nx.all_simple_paths(self.topo, src, dst, cutoff=6)), 1)[0]")]),
+    dict(prop='C18', name='fairswitch-egress-port-wired-to-wrong-scheduler', edits=[(SWITCH, "            egress_port.out = scheduler\n", "            egress_port.out = scheduler if port < 2 else self.ports[0]\n")]),
+]
 MUTANTS.sort(key=lambda m: (m['prop'], m['name']))
